@@ -239,11 +239,12 @@ def make_spec(rng, gen, kind, how=None, npk=None, ascii_only=True, special=None)
         pkts.insert(rng.randrange(len(pkts) + 1), long)
     if special == "aa55" and kind == "waveshare":
         # a packet whose LAST byte (the checksum) is 0xAA ends a read; a stray 0x55 follows; then more packets
-        k = rng.randrange(len(pkts))
-        q = bytearray(pkts[k])
+        good = [j for j, x in enumerate(pkts) if len(x) == 20 and x[:2] == b"\xaa\x55"]
+        k = rng.choice(good) if good else 0
+        q = bytearray(pkts[k]) if good else bytearray(20)
         q[18] = (q[18] + (0xAA - sum(q[2:19])) % 256) % 256
         q[19] = sum(q[2:19]) & 0xFF
-        if q[19] == 0xAA:
+        if good and q[19] == 0xAA:
             pkts[k] = bytes(q)
             pkts.insert(k + 1, rng.choice([b"\x55", b"\x55\x00", b"\x55\x55"]))
             how = "crlf"                                      # binary formats: cut exactly at every segment boundary
